@@ -60,7 +60,7 @@ class Native:
         self.replay_bin = os.path.join(self.dir, 'ucg-replay')
         self.ucg_bin = os.path.join(self.dir, 'ucg')
 
-    def run_many(self, cases, timeout=120):
+    def run_many(self, cases, timeout=900):
         r = subprocess.run([self.replay_bin], input=json.dumps(cases).encode(), stdout=subprocess.PIPE, stderr=subprocess.PIPE, timeout=timeout)
         if r.returncode != 0:
             # abort / stack overflow: bisect so that one crashing case does not hide the others
